@@ -676,7 +676,15 @@ def minimise(v):
     return cur
 
 
+def minimise_any(v):
+    return v if v.get("mode") == "real-kernel" else minimise(v)
+
+
 def replay(payload):
+    if payload.get("mode") == "real-kernel":
+        _, viol = real_kernel_crosscheck()
+        hit = [x for x in viol if x["key"] == payload["key"]]
+        return (hit[0]["class"] if hit else None), {"violations": hit}
     got, R, res = reproduce(payload)
     return got, {"observed": strip_res(res), "reference": strip_res(R)}
 
@@ -704,3 +712,59 @@ def determinism_probe(items, seed, n):
             if ka != kb:
                 bad.append({"item": it["id"], "plan": plan})
     return len(chosen), bad
+
+
+# ------------------------------------------------------------------ real-kernel cross-check of the simulated faults
+
+def real_kernel_crosscheck():
+    """A handful of faults produced by the REAL kernel (no shim): /dev/full as destination, /dev/full as stderr, a closed
+    stdout pipe.  They must be judged the same way as their simulated counterparts, which ties the shim's fault model to
+    reality.  Returns (runs, list of violation dicts)."""
+    import subprocess
+    import tempfile
+    import shutil
+    out = []
+    runs = 0
+    warn_grammar = "cmd <UNDEFINED> foo --opt=(a | b);\n<UNUSED> = x;\n"
+    bad_grammar = "cmd (same \"1\" | same \"2\");\n"
+    d = tempfile.mkdtemp(prefix="vreal-", dir=proc.scratch_root())
+    try:
+        with open(os.path.join(d, "w.usage"), "w") as f:
+            f.write(warn_grammar)
+        with open(os.path.join(d, "b.usage"), "w") as f:
+            f.write(bad_grammar)
+        for sh in gram.SHELLS:
+            # 1. destination on a full device: never exit 0
+            r = subprocess.run([build.COMPLGEN, "--" + sh, "/dev/full", "w.usage"], cwd=d, capture_output=True, env={"LC_ALL": "C"}, timeout=30)
+            runs += 1
+            if r.returncode != 1 or not r.stderr:
+                out.append({"class": "real-kernel:dest-full:exit%s" % r.returncode, "key": "real-kernel:dest-full", "shell": sh, "stderr": proc.enc(r.stderr)[-400:]})
+            # 2. stdout on a full device
+            with open("/dev/full", "wb") as full:
+                r = subprocess.run([build.COMPLGEN, "--" + sh, "-", "w.usage"], cwd=d, stdout=full, stderr=subprocess.PIPE, env={"LC_ALL": "C"}, timeout=30)
+            runs += 1
+            if r.returncode != 1 or not r.stderr:
+                out.append({"class": "real-kernel:stdout-full:exit%s" % r.returncode, "key": "real-kernel:stdout-full", "shell": sh, "stderr": proc.enc(r.stderr)[-400:]})
+            # 3. stderr on a full device while only warnings are printed: success stays success, script complete
+            with open("/dev/full", "wb") as full:
+                r = subprocess.run([build.COMPLGEN, "--" + sh, "out.%s" % sh, "w.usage"], cwd=d, stdout=subprocess.PIPE, stderr=full, env={"LC_ALL": "C"}, timeout=30)
+            runs += 1
+            ok_ref = subprocess.run([build.COMPLGEN, "--" + sh, "ref.%s" % sh, "w.usage"], cwd=d, capture_output=True, env={"LC_ALL": "C"}, timeout=30)
+            runs += 1
+            same = False
+            try:
+                with open(os.path.join(d, "out.%s" % sh), "rb") as fa, open(os.path.join(d, "ref.%s" % sh), "rb") as fb:
+                    same = fa.read() == fb.read()
+            except OSError:
+                pass
+            if r.returncode != 0 or ok_ref.returncode != 0 or not same:
+                out.append({"class": "real-kernel:stderr-full-warning:exit%s" % r.returncode, "key": "real-kernel:stderr-full-warning", "shell": sh})
+            # 4. stderr on a full device while an error is reported: exit status stays 1, destination untouched
+            with open("/dev/full", "wb") as full:
+                r = subprocess.run([build.COMPLGEN, "--" + sh, "never.%s" % sh, "b.usage"], cwd=d, stdout=subprocess.PIPE, stderr=full, env={"LC_ALL": "C"}, timeout=30)
+            runs += 1
+            if r.returncode != 1 or os.path.exists(os.path.join(d, "never.%s" % sh)):
+                out.append({"class": "real-kernel:stderr-full-error:exit%s" % r.returncode, "key": "real-kernel:stderr-full-error", "shell": sh})
+    finally:
+        shutil.rmtree(d, ignore_errors=True)
+    return runs, out
